@@ -14,6 +14,10 @@ mod rulegen;
 mod probe;
 mod c04g;
 mod c19;
+mod c01;
+mod c14;
+mod cli;
+mod c01cli;
 
 use std::path::PathBuf;
 
@@ -51,6 +55,9 @@ fn main() {
     "c04x" => c02::run_c04x(&o),
     "c04g" => c04g::run(&o),
     "c19" => c19::run(&o),
+    "c01" => c01::run(&o),
+    "c14" => c14::run(&o),
+    "c01cli" => c01cli::run(&o),
     "c05" => c05::run_stream(&o, "c05"),
     "c04" => c05::run_stream(&o, "c04"),
     s => { eprintln!("unknown stream {s}"); std::process::exit(2); }
